@@ -226,7 +226,7 @@ rule(r"base\._STIXBase\._check_property", "call", r"str\(\.\.\.\)", "family",
      "str(exc) inside the handler: total for the library's classes by the obligation library_exception_str_templates_constant")
 rule(r"base\._STIXBase\._check_object_constraints", "call", r"validate\(\.\.\.\)", "family", "markings.utils.validate raises InvalidSelectorError")
 rule(r"base\._STIXBase\.__init__", "call", r"(get_timestamp|get_required_properties|class_for_type)\(\.\.\.\)", "family", "library helpers on library data")
-rule(r"base\.(_STIXBase|_Observable)\.__init__", "attr", r"kwargs\.(pop|get|keys)", "own", "the ** dict of the call")
+rule(r"(v21\.)?base\.(_STIXBase|_Observable)\.__init__", "attr", r"kwargs\.(pop|get|keys)", "own", "the ** dict of the call")
 rule(r"base\._STIXBase\.__init__", "attr",
      r"(defined_properties|registered_toplevel_extension_props|assigned_properties|setting_kwargs|defaulted)\.(items|keys|get|update|append)",
      "own", "dicts / ChainMaps / lists built in this function")
